@@ -459,7 +459,7 @@ def gen_value(rng, edges):
 def gen_fill(rng, edges, nan_ok=True):
     o = {"op": "fill"}
     r = rng.random()
-    wmode = rng.choice(["none", "none", "match", "match", "bad"]) if rng.random() < 0.55 else "none"
+    wmode = rng.choice(["none", "match", "match", "match", "match", "match", "bad"]) if rng.random() < 0.5 else "none"
     if r < 0.35:                                    # scalar
         v = gen_value(rng, edges)
         if rng.random() < 0.15 and float(v).is_integer():
